@@ -380,6 +380,11 @@ func runWorldSeq(s *kernel.Sim, p profile) {
 				// close any open connection of an actor: the current one or an
 				// older one left open by a reconnect
 				a := anyActor()
+				if p.prop == "C09" && d.choose("shared", 4) == 0 {
+					// a second host registers over this host's connection, then the connection goes away
+					d.SharedThenClose(a, anyActor())
+					continue
+				}
 				var open []*Conn
 				for _, c := range w.Conns {
 					if c.A == a && !c.Closed {
